@@ -11,10 +11,28 @@ theorem scan_encode (rs : List Bytes) (h : ∀ r ∈ rs, r.length < 4294967296) 
     (hf : rs.length ≤ fuel) : scanRows fuel (encodeRows rs) = .ok rs :=
   scan_encode_aux rs h fuel hf
 
+/-- non-vacuity: three rows (one of them empty) within the uint32 length limit and enough fuel; the scanner returns them -/
+example :
+    let rs : List Bytes := [[1, 2, 3], [], [255, 0]]
+    ((∀ r ∈ rs, r.length < 4294967296) ∧ rs.length ≤ 5) ∧ scanRows 5 (encodeRows rs) = .ok rs ∧
+    encodeRows rs = [3, 0, 0, 0, 1, 2, 3, 0, 0, 0, 0, 2, 0, 0, 0, 255, 0] := by
+  intro rs
+  have h : (∀ r ∈ rs, r.length < 4294967296) ∧ rs.length ≤ 5 := by decide
+  exact ⟨h, scan_encode rs h.1 5 h.2, by decide⟩
+
 /-- … and nothing else scans successfully to those rows: the row section is determined by its rows. -/
 theorem encode_scan (fuel : Nat) (bs : Bytes) (rs : List Bytes) (hf : bs.length < fuel)
     (h : scanRows fuel bs = .ok rs) : encodeRows rs = bs :=
   encode_scan_aux fuel bs rs hf h
+
+/-- non-vacuity: a ten-byte section that scans successfully (a two-byte row, then an empty row) with fuel above its length -/
+example :
+    let bs : Bytes := [2, 0, 0, 0, 9, 8, 0, 0, 0, 0]
+    let rs : List Bytes := [[9, 8], []]
+    (bs.length < 11 ∧ scanRows 11 bs = .ok rs) ∧ encodeRows rs = bs := by
+  intro bs rs
+  have h : bs.length < 11 ∧ scanRows 11 bs = .ok rs := ⟨by decide, by rfl⟩
+  exact ⟨h, encode_scan 11 bs rs h.1 h.2⟩
 
 /-- Row data blocks are contiguous from offset 0 and the filter region follows them with each
     block's section in block order. -/
@@ -34,6 +52,16 @@ theorem layout_validates (bs : List BlockSize) (dataLimit : Int)
     Gen.validate (layout bs) dataLimit = true := by
   have hv := layout_valid_aux bs dataLimit h
   rw [validate_bridge_aux _ _ (layout_I64_aux bs dataLimit h hd) hd]; exact hv
+
+/-- non-vacuity: a three-block layout (one block without a filter section) in a data area of exactly its size, and in a larger one -/
+example :
+    let bs : List BlockSize := [⟨10, 3⟩, ⟨0, 0⟩, ⟨7, 5⟩]
+    (((sumRow bs + sumFilter bs : Int) ≤ 25 ∧ InI64 25) ∧ Gen.validate (layout bs) 25 = true) ∧
+    (((sumRow bs + sumFilter bs : Int) ≤ 4096 ∧ InI64 4096) ∧ Gen.validate (layout bs) 4096 = true) := by
+  intro bs
+  have h1 : (sumRow bs + sumFilter bs : Int) ≤ 25 ∧ InI64 25 := by decide
+  have h2 : (sumRow bs + sumFilter bs : Int) ≤ 4096 ∧ InI64 4096 := by decide
+  exact ⟨⟨h1, layout_validates bs 25 h1.1 h1.2⟩, ⟨h2, layout_validates bs 4096 h2.1 h2.2⟩⟩
 
 /-- Non-vacuity: a three-block layout (one block without a filter section). -/
 example : (layout [⟨10, 3⟩, ⟨0, 0⟩, ⟨7, 5⟩]).DataBlocks.map (fun b => (b.RowDataOffset, b.BloomFilterOffset)) =
